@@ -25,12 +25,12 @@ private theorem fill_all (b src : Bytes) (h : src.length = b.length) :
 
 theorem rand_MustRand_eq (rand : Int → Bytes) (b : Bytes) (h : (rand (b.length : Int)).length = b.length) :
     RandomInt.MustRand rand b = rand (b.length : Int) := by
-  simp only [RandomInt.MustRand, RandomInt.MustRand.b, len_eq, Int.sub_zero]
+  simp only [RandomInt.MustRand, RandomInt.MustRand.v1, len_eq, Int.sub_zero]
   exact fill_all b _ h
 
 theorem rand_GetRandomBytes_eq (rand : Int → Bytes) (n : Nat) (h : (rand (n : Int)).length = n) :
     RandomSubtle.GetRandomBytes rand n = rand (n : Int) := by
-  simp only [RandomSubtle.GetRandomBytes, RandomSubtle.GetRandomBytes.buf_2, RandomSubtle.GetRandomBytes.buf,
+  simp only [RandomSubtle.GetRandomBytes, RandomSubtle.GetRandomBytes.v2, RandomSubtle.GetRandomBytes.v1,
     Int.ofNat_eq_natCast, makeBytes_natCast, len_eq, Int.sub_zero]
   have hz : (Bytes.zeros n).length = n := by simp [Bytes.zeros]
   rw [hz]
@@ -39,7 +39,7 @@ theorem rand_GetRandomBytes_eq (rand : Int → Bytes) (n : Nat) (h : (rand (n : 
 
 theorem rand_GetRandomUint32_eq (rand : Int → Bytes) (h : (rand 4).length = 4) :
     RandomSubtle.GetRandomUint32 rand = Bytes.toNatBE (rand 4) := by
-  simp only [RandomSubtle.GetRandomUint32, RandomSubtle.GetRandomUint32.b_2, RandomSubtle.GetRandomUint32.b]
+  simp only [RandomSubtle.GetRandomUint32, RandomSubtle.GetRandomUint32.v2, RandomSubtle.GetRandomUint32.v1]
   have hz : makeBytes 4 = Bytes.zeros 4 := makeBytes_natCast 4
   have hl : (Bytes.zeros 4).length = 4 := by simp [Bytes.zeros]
   rw [hz]
@@ -52,7 +52,7 @@ theorem rand_GetRandomUint32_eq (rand : Int → Bytes) (h : (rand 4).length = 4)
 
 theorem rand_NewBytesFromRand_eq (rand : Int → Bytes) (size : Nat) (h : (rand (size : Int)).length = size) :
     Secretdata.NewBytesFromRand rand size = some (rand (size : Int)) := by
-  simp only [Secretdata.NewBytesFromRand, Secretdata.NewBytesFromRand.b_data_2, Secretdata.NewBytesFromRand.b_data,
+  simp only [Secretdata.NewBytesFromRand, Secretdata.NewBytesFromRand.v2, Secretdata.NewBytesFromRand.v1,
     Int.ofNat_eq_natCast, makeBytes_natCast, len_eq, Int.sub_zero]
   have hz : (Bytes.zeros size).length = size := by simp [Bytes.zeros]
   rw [hz]
